@@ -5,36 +5,49 @@
 (* restoring context manager).  Each recorded event carries what was       *)
 (* observed after the call: marker_none (the class-level marker is None),  *)
 (* and for compilations `same` (the TEAL equals the TEAL of the same call  *)
-(* in a fresh process, which itself is identical under all hash seeds).    *)
+(* in a fresh process, which itself is identical under all hash seeds),    *)
+(* `adv` (the slot counter is higher after the call than before).  Where   *)
+(* Process.tla predicts "clean" the TEAL must equal the fresh result (the   *)
+(* replay compiles everything twice in a row: two events); where it        *)
+(* predicts the                                                            *)
+(* recorded deviation "a19" anything is accepted and the trace is reported *)
+(* as accepted-with-a19 when the deviation was in fact observed.           *)
 (* An event is consumed only if the observation is what the specification  *)
 (* allows; the trace is accepted iff every event is consumed.              *)
-(* Batch: Seq(trace), trace = Seq([act, p, o, cls, same, marker_none]).    *)
+(* Batch: Seq(trace), trace = Seq([act, p, o, cls, same, marker_none, adv]).*)
 (***************************************************************************)
 EXTENDS Process, IOUtils
 
 Batch == JsonDeserialize(IOEnv.BATCH_FILE)
-VARIABLES tid, l
-tvars == <<tid, l, marker, inst, hist>>
+VARIABLES tid, l, dev
+tvars == <<tid, l, dev, marker, inst, att, stale, dirty, hist>>
 
 Trace == Batch[tid]
 E == Trace[l]
 Obs == E.marker_none = (IF marker' = "none" THEN 1 ELSE 0)
 
-TBuild == E.act = "build" /\ Build(E.p) /\ Obs
-TCompile == /\ E.act = "compile" /\ Compile(E.p, E.o) /\ Obs
-            /\ E.cls = "teal" /\ (inst[E.p] = "clean" => E.same = 1)
-TFail == E.act = "fail" /\ FailCompile(E.p) /\ Obs /\ E.cls = "pyteal"
-TNoise == E.act = "noise" /\ Noise /\ Obs
+Adv == E.adv = 1
+TBuild == E.act = "build" /\ Build(E.p, Adv) /\ Obs /\ UNCHANGED dev
+TCompile == /\ E.act = "compile" /\ Compile(E.p, E.o, Adv) /\ Obs
+            /\ (E.p \in Routers => ~Adv)                                     \* a Router compilation leaves the counter where it was
+            /\ CASE Result(E.p) = "clean" -> E.cls = "teal" /\ E.same = 1 /\ UNCHANGED dev
+                 [] Result(E.p) = "a19" -> E.cls = "teal" /\ dev' = dev + (1 - E.same)
+                 [] OTHER -> E.cls = "teal" /\ UNCHANGED dev                   \* tainted: nothing is promised
+TFail == E.act = "fail" /\ FailCompile(E.p, Adv) /\ Obs /\ E.cls = "pyteal" /\ UNCHANGED dev
+TFailR == E.act = "failr" /\ FailRouter(E.p) /\ Obs /\ E.cls = "pyteal" /\ UNCHANGED dev
+TNoise == E.act = "noise" /\ Noise /\ Obs /\ UNCHANGED dev
+TAny == TBuild \/ TCompile \/ TFail \/ TFailR \/ TNoise
 
-TInit == tid \in 1..Len(Batch) /\ l = 1 /\ Init
-TNext == /\ l <= Len(Trace) /\ (TBuild \/ TCompile \/ TFail \/ TNoise)
+TInit == tid \in 1..Len(Batch) /\ l = 1 /\ dev = 0 /\ Init
+TNext == /\ l <= Len(Trace) /\ TAny
          /\ l' = l + 1 /\ UNCHANGED tid
 \* a trace that cannot be extended although events remain is reported by the Stuck step
-Stuck == /\ l <= Len(Trace) /\ ~ENABLED (TBuild \/ TCompile \/ TFail \/ TNoise)
+Stuck == /\ l <= Len(Trace) /\ ~ENABLED TAny
          /\ PrintT("V|" \o ToString(tid) \o "|rejected-at|" \o ToString(l) \o "|" \o E.act \o ":" \o E.p \o ":" \o E.o)
-         /\ l' = Len(Trace) + 2 /\ UNCHANGED <<tid, marker, inst, hist>>
-Done == /\ l = Len(Trace) + 1 /\ PrintT("V|" \o ToString(tid) \o "|accepted|" \o ToString(Len(Trace)) \o "|")
-        /\ l' = Len(Trace) + 3 /\ UNCHANGED <<tid, marker, inst, hist>>
+         /\ l' = Len(Trace) + 2 /\ UNCHANGED <<tid, dev, marker, inst, att, stale, dirty, hist>>
+Done == /\ l = Len(Trace) + 1
+        /\ PrintT("V|" \o ToString(tid) \o "|" \o (IF dev > 0 THEN "accepted-with-a19" ELSE "accepted") \o "|" \o ToString(Len(Trace)) \o "|")
+        /\ l' = Len(Trace) + 3 /\ UNCHANGED <<tid, dev, marker, inst, att, stale, dirty, hist>>
 TSpec == TInit /\ [][TNext \/ Stuck \/ Done]_tvars
 Accepted == l # Len(Trace) + 2
 =============================================================================
